@@ -373,8 +373,11 @@ func checkEnvelope(data []byte, expectedType msgType) ([]byte, error) {
 		headerLen  = int(data[5])
 		flags      = data[6]
 		actualType = msgType(data[7])
-		payload    = data[headerLen:]
 	)
+	if headerLen > len(data) {
+		return nil, errors.New("invalid envelope header length")
+	}
+	payload := data[headerLen:]
 
 	if actualType != expectedType {
 		return nil, fmt.Errorf("MsgType mismatch: expected %v, got %v", expectedType, actualType)
